@@ -461,6 +461,37 @@ def normalize(e):
     if k == 'Call' and callee_is(e, 'RangeInclusive::new'):
         return {'k': 'Range', 'incl': True, 'ch': [e['ch'][1], e['ch'][2]], 'sp': e.get('sp'),
                 'id': e.get('id'), 'ty': e.get('ty')}
+    # `match o { Some(p) => A, None => B }` is `if let Some(p) = o { A } else { B }`
+    if k == 'Match' and not e.get('src', '').endswith('Desugar') and len(e.get('arms', [])) == 2 and \
+            not any('guard' in a for a in e['arms']):
+        def _is_some(p):
+            return p.get('k') == 'TupleStruct' and strip_generics(p.get('def', '')).endswith('::Some')
+
+        def _is_none(p):
+            return (p.get('k') in ('Path', 'Expr', 'Struct') and pat_src(p).endswith('None')) or p.get('k') == 'Wild'
+        a0, a1 = e['arms']
+        some, none = (a0, a1) if _is_some(a0['pat']) and _is_none(a1['pat']) else \
+            (a1, a0) if _is_some(a1['pat']) and _is_none(a0['pat']) and a0['pat'].get('k') != 'Wild' else (None, None)
+        if some is not None:
+            le = {'k': 'LetExpr', 'pat': some['pat'], 'ch': [e['ch'][0]], 'sp': e.get('sp'), 'ty': 'bool'}
+            sb, nb = some['body'], none['body']
+            # `Some(v) => v, None => d`  is  o.unwrap_or(d) for a literal / plain default
+            inner = some['pat']['ch'][0] if len(some['pat'].get('ch', [])) == 1 else {}
+            psb, pnb = peel(sb), peel(nb)
+            if inner.get('k') == 'Binding' and psb.get('k') == 'Path' and psb.get('local') == inner.get('local') \
+                    and pnb.get('k') in ('Lit', 'Path'):
+                return {'k': 'MethodCall', 'method': 'unwrap_or',
+                        'callee': 'std::option::Option::<T>::unwrap_or', 'ch': [e['ch'][0], nb],
+                        'sp': e.get('sp'), 'id': e.get('id'), 'ty': e.get('ty')}
+
+            def blk(x):
+                return x if x.get('k') == 'Block' else {'k': 'Block', 'stmts': [], 'expr': x,
+                                                        'sp': x.get('sp'), 'ty': x.get('ty')}
+            nbb = blk(nb)
+            empty_else = nbb.get('k') == 'Block' and not nbb.get('stmts') and \
+                ('expr' not in nbb or (peel(nbb['expr']).get('k') == 'Tup' and not peel(nbb['expr']).get('ch')))
+            return {'k': 'If', 'ch': [le, blk(sb)] + ([] if empty_else and e.get('ty') == '()' else [nbb]),
+                    'sp': e.get('sp'), 'id': e.get('id'), 'ty': e.get('ty')}
     # `iter.for_each(|p| body)` is `for p in iter { body }` (a closure body without `return`)
     if k == 'MethodCall' and e.get('method') == 'for_each' and len(e.get('ch', [])) == 2 and \
             callee_is(e, 'Iterator::for_each'):
